@@ -674,6 +674,16 @@ func (m *collection) appendChildLLSnapshot(dst *segmentStack,
 		var childSnap Snapshot
 		if src != nil {
 			childSnap, _ = src.ChildCollectionSnapshot(cName)
+
+			// A child collection that was deleted and created again must
+			// not see what the lower level still holds of its prior
+			// incarnation (until that deletion has been persisted).
+			childFooter, ok := childSnap.(*Footer)
+			if ok && childFooter != nil &&
+				childFooter.incarNum != childCollection.incarNum {
+				childFooter.Close()
+				childSnap = nil
+			}
 		}
 
 		dst.childSegStacks[cName] =
